@@ -37,7 +37,9 @@ LEVEL_TEXT = (
     "Bounded exploration: generated base trees (0-3 operations in a source engine S - SQL, or a second iteration engine "
     "for exact order -, a transfer to an iteration engine T, 0-4 operations and materializations in T), then one further "
     "unary operation or join issued with all combinations of preferred_engine in {S, T, third engine}, backtrack, "
-    "transfer, require_preferred_engine (24 calls per tree for unary operations; join: backtrack x transfer x fixed side)."
+    "transfer, require_preferred_engine (24 calls per tree for unary operations; join: backtrack x transfer x fixed side).  "
+    "The same request is repeated on a processed base tree and on a twin tree (same names, other rows); a user-defined "
+    "RowFilter that keeps the base-class commute() is requested with every option combination (it must stay in the tree)."
 )
 LEVEL_NOTE = "trusts: ev_multi + labels, the harness Processor, SQLite; P1, P4, P8; joins only with S = SQL (the iteration engine does not execute joins)"
 RULE = (
